@@ -168,29 +168,28 @@ Theorem C13_table_check_sound : forall c rd ri kvs, table_check c rd ri = Some k
 Proof. exact table_check_sound. Qed.
 Print Assumptions C13_table_check_sound.
 
-(* C.3  table_wf_of_write — PARTIAL: proved for Compression = NoCompression and a reader opened
-   without a filter, any filter generator on the writer side, any block size, restart interval
-   >= 1, any checksum function below 2^32, any comparer satisfying the contract for which the
-   empty key is least (the Go writer tests len(key) == 0 to mean "no next key").  The file the
+(* C.3  table_wf_of_write — PARTIAL: proved for Compression = NoCompression; any filter generator
+   on the writer side and any filter name (or none) on the reader side, any block size, restart
+   interval >= 1, any checksum function below 2^32, any comparer satisfying the contract for
+   which the empty key is least (the Go writer tests len(key) == 0 to mean "no next key").  The file the
    model writer produces for strictly increasing pairs is, when opened by the model reader with
    or without checksum verification, a well-formed table holding exactly those pairs — so
    B.1-B.6 apply to it.
    FULL STATEMENT (not proved): the same with snappy = true for every codec with
    decompress (compress x) = Some x and non-empty output (the uncompressed blocks are then not
-   bounded by the file length: it needs a size hypothesis on the pairs and on the separators),
-   and for a reader opened with the writer's filter name (metaindex scan). *)
+   bounded by the file length: it needs a size hypothesis on the pairs and on the separators). *)
 Theorem C13_table_wf_of_write_partial :
-  forall tp crc compress decompress fcontains c blockSize ri fgen kvs file verify,
+  forall tp crc compress decompress fcontains c blockSize ri fgen kvs file fname verify,
   tparams_ok tp -> (forall b, (crc b < 2 ^ 32)%N) -> (forall x, decompress (compress x) = Some x) ->
   comparer_ok c -> (forall k, cmp c [] k <> Gt) -> (1 <= ri)%N ->
   sorted c kvs ->
   twrite tp crc compress c blockSize ri false fgen kvs = Some file -> (lenN file < 2 ^ 32)%N ->
   exists blocks seps hs,
-    table_wf c (open_table tp crc decompress fcontains c file None verify) blocks seps hs /\
+    table_wf c (open_table tp crc decompress fcontains c file fname verify) blocks seps hs /\
     tkvs blocks = kvs.
 Proof.
-  intros tp crc compress decompress fcontains c blockSize ri fgen kvs file verify Htp Hcrc Hcodec Hc Hel Hri.
-  exact (table_wf_of_write tp Htp crc Hcrc compress decompress Hcodec fcontains c Hc Hel blockSize ri Hri fgen kvs file verify).
+  intros tp crc compress decompress fcontains c blockSize ri fgen kvs file fname verify Htp Hcrc Hcodec Hc Hel Hri.
+  exact (table_wf_of_write tp Htp crc Hcrc compress decompress Hcodec fcontains c Hc Hel blockSize ri Hri fgen kvs file fname verify).
 Qed.
 Print Assumptions C13_table_wf_of_write_partial.
 
@@ -199,12 +198,12 @@ Print Assumptions C13_table_wf_of_write_partial.
    full and range-restricted iteration in both directions under arbitrary movement sequences,
    non-decreasing offsets. *)
 Theorem C13_table_roundtrip_partial :
-  forall tp crc compress decompress fcontains c blockSize ri fgen kvs file verify strict,
+  forall tp crc compress decompress fcontains c blockSize ri fgen kvs file fname verify strict,
   tparams_ok tp -> (forall b, (crc b < 2 ^ 32)%N) -> (forall x, decompress (compress x) = Some x) ->
   comparer_ok c -> (forall k, cmp c [] k <> Gt) -> (1 <= ri)%N ->
   sorted c kvs ->
   twrite tp crc compress c blockSize ri false fgen kvs = Some file -> (lenN file < 2 ^ 32)%N ->
-  let rd := open_table tp crc decompress fcontains c file None verify in
+  let rd := open_table tp crc decompress fcontains c file fname verify in
   (forall k v, In (k, v) kvs -> tget c rd k = FFound k v) /\
   (forall k, (forall v, ~ In (k, v) kvs) -> tget c rd k = FNotFound) /\
   (forall key, tfind c rd key false =
